@@ -110,7 +110,7 @@ P_C03_Text(lines, doc, ix) ==
 RECURSIVE SkipEmpty(_, _), RunEnd(_, _)
 SkipEmpty(toks, k) == IF k <= Len(toks) /\ toks[k].type = "Empty" THEN SkipEmpty(toks, k + 1) ELSE k
 RunEnd(toks, k) == IF k <= Len(toks) /\ toks[k].type \in {"Other", "Comment"} THEN RunEnd(toks, k + 1) ELSE k
-TokIndexAtLine(toks, ln) == CHOOSE k \in 1..Len(toks) : toks[k].line = ln
+TokIndexAtLine(toks, ln) == IF \E k \in 1..Len(toks) : toks[k].line = ln THEN CHOOSE k \in 1..Len(toks) : toks[k].line = ln ELSE 0
 RECURSIVE DropBlankTail(_)
 DropBlankTail(ss) == IF ss # <<>> /\ AllWs(ss[Len(ss)]) THEN DropBlankTail(SubSeq(ss, 1, Len(ss) - 1)) ELSE ss
 ExpectedDesc(lines, toks, n) ==
@@ -185,6 +185,7 @@ P_C04_ReadBack(lines, doc, ix) ==
 (* error locations: within the document (end of file: one line past the last), message position = location *)
 P_C04_ErrLoc(lines, errs) == \A j \in 1..Len(errs) : LET e == errs[j] IN
    /\ e.line \in 1..(Len(lines) + 1)
+   /\ (e.kind # "eof" => e.line <= Len(lines))
    /\ (e.kind = "eof" <=> e.line = Len(lines) + 1)
    /\ (e.kind = "eof" => e.col = 0)
    /\ (e.kind \in {"unexpected", "lang", "ragged"} => e.col = Indent(lines[e.line]) + 1)
